@@ -1,2 +1,9 @@
-// Package c04 holds the scenario family of property C04.
+// Package c04 decides C04 (RTSP framing round-trips for any chunking and any
+// byte carrier) by stream simulation (DESIGN 3.3): the real conn.Conn writer on
+// one end of a simulated stream, the real conn.Conn reader on the other end, the
+// scheduler partitioning the byte stream into reads, three carriers (direct,
+// HTTP tunnel = real client tunnel writer + real server tunnel / base64 stream
+// reader, WebSocket = real gorilla connection pair + the library's message
+// reader / writer), plus separate truncation, corruption and over-limit
+// configurations and an end-to-end configuration through a real Client and Server.
 package c04
